@@ -96,6 +96,16 @@ def jobs_for(ck, tier, rnd):
         src, templates, data = c06.concretize(c["prog"])
         jobs.append(("loop", src, templates, data, list(range(0, min(prod, 40) + 3))))
     jobs = pick(jobs)
+    # the same nests with every loop helper drop bound to a local, under a sweep of the local-namespace limit (sizes in sys.getsizeof units)
+    jh, seenh = [], set()
+    for c in rs[0].emitted:
+        key = json.dumps(c["prog"], sort_keys=True)
+        if key in seenh or not any(lv["k"] in ("for", "tablerow") and lv["n"] >= 2 for lv in c["prog"]):
+            continue
+        seenh.add(key)
+        src, templates, data = c06.concretize(c["prog"], helper=True)
+        jh.append(("namespace", src, templates, data, [0, 16, 48, 64, 96, 128, 256, 1024, 10 ** 6]))
+    jobs += pick(jh)[: (400 if q else 4000)]
     j2 = []
     for i, c in enumerate(rs[1].emitted):
         src, templates = c07.concretize(c, i % 3)
